@@ -21,6 +21,7 @@ type Mutation {
 type Subscription {
   watch(topic: String, sid: Int!): Event!
   watchAny(topic: String, sid: Int!): Happening
+  watchBatch(topic: String, sid: Int!): [Event!]!
 }
 union Happening = Event | Notice
 type Notice {
@@ -100,6 +101,12 @@ func NoticeEvent(n int) bool { return n%3 == 1 }
 // resolve.
 func (w *SubWorld) Expect(sb *SimSub, n int) (msg string, resolveErr bool) {
 	bad := w.BadEvents && BadEvent(n)
+	if w.ListEvents {
+		// a batch of two events: the selection is applied to every member
+		m1, e1 := ExpectFor(sb.SelIndex, n, bad)
+		m2, _ := ExpectFor(sb.SelIndex, n+500, false)
+		return "[" + m1 + "," + m2 + "]", e1
+	}
 	if !w.UnionEvents {
 		return ExpectFor(sb.SelIndex, n, bad)
 	}
@@ -293,6 +300,9 @@ type SubWorld struct {
 	// published events are of two Go types (members of the union), reflection
 	// flavour only.
 	UnionEvents bool
+	// ListEvents: every subscriber subscribes to the list-typed field and every
+	// published event is a batch (a list of two events).
+	ListEvents bool
 	// BadEvents makes the msg field of the events with BadEvent(n) fail to
 	// resolve (resolver error / value that cannot be coerced to String).
 	BadEvents bool
@@ -401,6 +411,9 @@ func (w *SubWorld) Subscribe(sid int) string {
 		field = strings.Replace(field, "watch", "watchAny", 1)
 		sel, frag = SubUnionSelections[s.SelIndex%len(SubUnionSelections)].Sel, ""
 	}
+	if w.ListEvents {
+		field = strings.Replace(field, "watch", "watchBatch", 1)
+	}
 	body := field + "(topic: " + topic + ", sid: " + sidText + ") " + sel
 	switch s.Wrap {
 	case 1:
@@ -414,7 +427,7 @@ func (w *SubWorld) Subscribe(sid int) string {
 		if w.UnionEvents {
 			body += " refused: watchAny(topic: \"zz\", sid: 99) { __typename }"
 		} else {
-			body += " refused: watch(topic: \"zz\", sid: 99) { id }"
+			body += " refused: " + strings.TrimPrefix(field, "w: ") + "(topic: \"zz\", sid: 99) { id }"
 		}
 	}
 	req := op + " { " + body + " }"
@@ -432,7 +445,11 @@ func (w *SubWorld) SubscriptionDoc(selIndex int, topic string) (src, op string) 
 	if topic != "" {
 		tp = strconv.Quote(topic)
 	}
-	src = "subscription S($sid: Int!) { watch(topic: " + tp + ", sid: $sid) " + SubSelections[selIndex].Sel + " }"
+	fname := "watch"
+	if w.ListEvents {
+		fname = "watchBatch"
+	}
+	src = "subscription S($sid: Int!) { " + fname + "(topic: " + tp + ", sid: $sid) " + SubSelections[selIndex].Sel + " }"
 	if f := SubSelections[selIndex].Frag; f != "" {
 		src += "\n" + f
 	}
@@ -455,12 +472,18 @@ func (w *SubWorld) Publish(topic string, n int) (int, error) {
 	}
 	if w.ResolverEvents {
 		ev = &EvRes{ID: n, Bad: bad}
+		if w.ListEvents {
+			ev = []interface{}{ev, &EvRes{ID: n + 500}}
+		}
 	} else {
 		e := NewEvent(n)
 		if bad {
 			e.Msg = unprintable{n}
 		}
 		ev = e
+		if w.ListEvents {
+			ev = []interface{}{e, NewEvent(n + 500)}
+		}
 	}
 	return w.Root.AddEvent(topic, ev)
 }
